@@ -153,3 +153,133 @@ def impl_roundtrip(arg, symbolic=True):
         except Exception as exc:  # noqa: BLE001
             pt = classify(exc)
     return [wire, pt]
+
+
+# ---------------------------------------------------------------------------------------------
+# A reference DC that works with whatever KDF is installed (symbolic or real): conforming envelopes
+# ---------------------------------------------------------------------------------------------
+LABEL = "KDS service\0".encode("utf-16-le")
+
+
+def _kdf(hid, key, context, length=64):
+    import dpapi_ng._crypto as C
+
+    from .impl_util import hash_of_id
+
+    return C.kdf(hash_of_id(hid), key, LABEL, context, length)
+
+
+def _ctx(rkid: uuid.UUID, l0, a, b):
+    return rkid.bytes_le + l0.to_bytes(4, "little", signed=True) + a.to_bytes(4, "little", signed=True) + b.to_bytes(4, "little", signed=True)
+
+
+def chain_K1(hid, rkid, sd, l0, i, root=ROOT):
+    key = _kdf(hid, _kdf(hid, root, _ctx(rkid, l0, -1, -1)), _ctx(rkid, l0, 31, -1) + sd)
+    j = 31
+    while j > i:
+        j -= 1
+        key = _kdf(hid, key, _ctx(rkid, l0, j, -1))
+    return key
+
+
+def chain_K2(hid, rkid, sd, l0, i, j, root=ROOT):
+    key = _kdf(hid, chain_K1(hid, rkid, sd, l0, i, root), _ctx(rkid, l0, i, 31))
+    m = 31
+    while m > j:
+        m -= 1
+        key = _kdf(hid, key, _ctx(rkid, l0, i, m))
+    return key
+
+
+SMALL_DH = (6, 1099511627791, 3)  # key_length 5 bytes, a 40-bit prime, generator 3: leading zero bytes are frequent
+
+
+def dc_envelopes(hid, sd, pos, mode, rkid=RKID, root=ROOT, priv_len=64, domain="d.test", forest="f.test", dh=SMALL_DH):
+    """(envelope for a caller who may only encrypt, envelope for an authorised caller) as lists of 16 values.
+    mode: 'seed' | 'DH' | 'ECDH_P256' | 'ECDH_P384'.  Must be called with the KDF that the run uses installed."""
+    from dpapi_ng._gkdi import ECDHKey, FFCDHKey, FFCDHParameters, KDFParameters
+
+    l0, l1, l2 = pos
+    kpar = KDFParameters(HASH_NAMES[hid]).pack()
+    k1 = chain_K1(hid, rkid, sd, l0, l1, root) if l2 == 31 else (chain_K1(hid, rkid, sd, l0, l1 - 1, root) if l1 > 0 else b"")
+    k2 = chain_K2(hid, rkid, sd, l0, l1, l2, root)
+    salg = "DH" if mode in ("seed", "DH") else mode
+    if salg == "DH":
+        klen, p, g = dh
+        spar = FFCDHParameters(key_length=klen, field_order=p, generator=g).pack()
+    else:
+        spar = b""
+    seed = [1, 2, l0, l1, l2, rkid.bytes_le, "SP800_108_CTR_HMAC", kpar, salg, spar, priv_len, 2048, domain, forest, k1, k2]
+    if mode == "seed":
+        return seed, seed
+    # the group private key is derived from the L2 key; the DC hands out the matching public key
+    y = int.from_bytes(_kdf(hid, k2, (salg + "\0").encode("utf-16-le"), -(-priv_len // 8)), "big")
+    if salg == "DH":
+        pub = FFCDHKey(key_length=klen, field_order=p, generator=g, public_key=pow(g, y, p)).pack()
+    else:
+        import dpapi_ng._gkdi as G
+
+        curve_name = salg[len("ECDH_"):]
+        key_len = {"P256": 32, "P384": 48}[curve_name]
+        curve = {"P256": G.ec.SECP256R1(), "P384": G.ec.SECP384R1()}[curve_name]
+        nums = G.ec.derive_private_key(y, curve).public_key().public_numbers()
+        pub = ECDHKey(curve_name=curve_name, key_length=key_len, x=nums.x, y=nums.y).pack()
+    penv = [1, 3, l0, l1, l2, rkid.bytes_le, "SP800_108_CTR_HMAC", kpar, salg, spar, priv_len, 2048, domain, forest, b"", pub]
+    return penv, seed
+
+
+def env_obj(v):
+    from dpapi_ng._gkdi import GroupKeyEnvelope
+
+    ver, fl, l0, l1, l2, rkid, kalg, kpar, salg, spar, priv, pub, dom, forest, k1, k2 = v
+    return GroupKeyEnvelope(version=ver, flags=fl, l0=l0, l1=l1, l2=l2, root_key_identifier=uuid.UUID(bytes_le=bytes(rkid)),
+                            kdf_algorithm=kalg, kdf_parameters=bytes(kpar), secret_algorithm=salg, secret_parameters=bytes(spar),
+                            private_key_length=priv, public_key_length=pub, domain_name=dom, forest_name=forest,
+                            l1_key=bytes(k1), l2_key=bytes(k2))
+
+
+def impl_roundtrip_env(arg, symbolic=True):
+    """protect and unprotect through the public API with the DC replaced by the two given envelopes"""
+    import asyncio
+
+    import dpapi_ng
+    from dpapi_ng._blob import DPAPINGBlob
+
+    from .core import classify
+
+    penv, uenv, draws, data, sid, trailing = arg
+    flavour = trailing >> 1
+    trailing &= 1
+    with _Env(draws=draws, symbolic=symbolic) as env:
+        pe, ue = env_obj(penv), env_obj(uenv)
+
+        async def aget_p(*a, **k):
+            return pe
+
+        async def aget_u(*a, **k):
+            return ue
+
+        env.CL._sync_get_key = lambda *a, **k: pe
+        env.CL._async_get_key = aget_p
+        if flavour == 0:
+            blob = dpapi_ng.ncrypt_protect_secret(bytes(data), sid, server="dc.test")
+        else:
+            blob = asyncio.run(dpapi_ng.async_ncrypt_protect_secret(bytes(data), sid, server="dc.test"))
+        if env.left:
+            raise RuntimeError("fewer os.urandom draws than the model expects")
+        wire = blob
+        if trailing:
+            try:
+                wire = DPAPINGBlob.unpack(blob).pack(blob_in_envelope=False)
+            except Exception as exc:  # noqa: BLE001
+                return [blob, classify(exc)]
+        env.CL._sync_get_key = lambda *a, **k: ue
+        env.CL._async_get_key = aget_u
+        try:
+            if flavour == 0:
+                pt = dpapi_ng.ncrypt_unprotect_secret(wire, server="dc.test")
+            else:
+                pt = asyncio.run(dpapi_ng.async_ncrypt_unprotect_secret(wire, server="dc.test"))
+        except Exception as exc:  # noqa: BLE001
+            pt = classify(exc)
+    return [wire, pt]
